@@ -178,7 +178,7 @@ fn shard(ctx: &Ctx, ifaces: &[&'static IfaceDesc], shard: usize, msgs: u64, exha
             st.crlf = rng.chance(1, 3);
             for pi in 0..5 {
                 if rng.chance(1, 2) {
-                    let n = rng.range(1, 3);
+                    let n = if rng.chance(1, 5) { rng.range(4, 9) } else { rng.range(1, 3) };
                     set_ws(&mut st, pi, (0..n).map(|_| *rng.pick(&WS_BYTES)).collect());
                 }
             }
